@@ -3,13 +3,14 @@ import Aiortc.Lemmas.C05.V2Task
 namespace Aiortc.Sctp.V2
 open Aiortc.Gen Aiortc.Sctp.Wire
 set_option linter.unusedSimpArgs false
-variable {U : List Nat}
+variable {U : List Nat} {B : Nat}
 
 /-! ## adding a channel object / registering a stream id -/
 
 theorem ChansOk.snocChan {chans dcs q rcq} (h : ChansOk U chans dcs q rcq) {c : Chan}
-    (hs : ∀ s, c.id = some s → s < 65536) : ChansOk U (chans ++ [c]) dcs q rcq := by
-  refine ⟨?_, h.dcKeys, ?_, ?_, h.qPpid, ?_, h.rcq⟩
+    (hs : ∀ s, c.id = some s → s < 65536) (ho : c.ready = 1 → c.Reliable ∨ c.id.isSome) :
+    ChansOk U (chans ++ [c]) dcs q rcq := by
+  refine ⟨?_, h.dcKeys, ?_, ?_, h.qPpid, ?_, h.rcq, ?_, ?_⟩
   · intro p hp; have := h.dcIdx p hp; simp; omega
   · intro x hx; have := h.qIdx x hx; simp; omega
   · intro x hx d hd
@@ -19,11 +20,18 @@ theorem ChansOk.snocChan {chans dcs q rcq} (h : ChansOk U chans dcs q rcq) {c : 
     rcases List.mem_append.mp hd with hd | hd
     · exact h.sid d hd s hds
     · simp at hd; subst hd; exact hs s hds
+  · intro p hp
+    obtain ⟨d, hd, hid⟩ := h.dcLink p hp
+    exact ⟨d, by rw [List.getElem?_append_left (h.dcIdx p hp)]; exact hd, hid⟩
+  · intro d hd hr
+    rcases List.mem_append.mp hd with hd | hd
+    · exact h.openId d hd hr
+    · simp at hd; subst hd; exact ho hr
 
 /-- What `createChannel` does to the state, in the three successful cases. -/
 inductive Created (e : Ep) (c : Chan) : Ep → Prop
   /-- `_data_channel_open` of a channel without id -/
-  | openPending (d : Bytes) : c.id = none →
+  | openPending (d : Bytes) : c.id = none → c.ready = 0 →
       Created e c { e with chans := e.chans ++ [c], dcQueue := e.dcQueue ++ [(e.chans.length, WEBRTC_DCEP, d)],
                            tasks := e.tasks ++ [.flush] }
   /-- `_data_channel_open` of a channel with an id chosen by the application -/
@@ -37,9 +45,9 @@ inductive Created (e : Ep) (c : Chan) : Ep → Prop
 /-- Each of them keeps the invariant. -/
 theorem WF.created {e e' : Ep} {c : Chan} (h : WF U e) (hc : Created e c e') : WF U e' := by
   cases hc with
-  | openPending d hid =>
+  | openPending d hid hrd =>
     have hch : ChansOk U (e.chans ++ [c]) e.dataChannels e.dcQueue e.reconfigQueue :=
-      h.ch.snocChan (by intro s hs; rw [hid] at hs; cases hs)
+      h.ch.snocChan (by intro s hs; rw [hid] at hs; cases hs) (by intro h1; rw [hrd] at h1; cases h1)
     refine ⟨h.net, hch.pushQ (by simp) (by simp [WEBRTC_DCEP]) (fun _ _ => Or.inl rfl), h.tx, h.rx, h.rcReq,
       h.rcResp, h.sack, h.ids, h.cap, h.tm1, h.tm2, ?_, h.rcr⟩
     exact (h.pushTask (t := .flush) trivial).tasks
@@ -94,7 +102,7 @@ theorem wp_create {A} {p : CreateParams} {Q : Unit → St → Prop} {e : Ep} {l 
         Option.map_none, wp_pure]
       obtain ⟨d, hd⟩ := encodeOpen_ok (c := { id := none, label := p.label, protocol := p.protocol, ordered := p.ordered, maxRetransmits := p.maxRetransmits, maxPacketLifeTime := p.maxPacketLifeTime, negotiated := false }) hl hpr hm1 hm2
       simp only [hd, wp_bind, wp_setE, wp_queueTask]
-      exact hq _ _ (Or.inr ⟨_, Created.openPending d rfl⟩)
+      exact hq _ _ (Or.inr ⟨_, Created.openPending d rfl rfl⟩)
     | some v =>
       obtain ⟨hv0, hv1⟩ := hid v hpid
       simp only [wp_bind, wp_getE, Bool.false_and, Bool.false_eq_true, if_false, Bool.not_false, if_true,
@@ -143,35 +151,35 @@ theorem wp_create {A} {p : CreateParams} {Q : Unit → St → Prop} {e : Ep} {l 
 
 /-- The invariant before `start()`: the association is closed, no timer runs, only flush tasks are queued, and
 everything else is already as `WF` wants it (`WF` holds as soon as `start()` has set its fields). -/
-structure Pre (U : List Nat) (e : Ep) : Prop where
+structure Pre (B : Nat) (e : Ep) : Prop where
   ns : e.started = false
   cl : e.assoc = .closed
   t1 : e.t1 = false
   tk : ∀ t ∈ e.tasks, t = .flush
-  wf : WF U (startF e 0)
+  wf : WFx B (startF e 0)
   acc : Acc 0 e.rwnd e.inStreams
   so : SidOk e.inStreams
 
-theorem Pre.created {e e' : Ep} {c : Chan} (h : Pre U e) (hc : Created e c e') : Pre U e' := by
+theorem Pre.created {e e' : Ep} {c : Chan} (h : Pre B e) (hc : Created e c e') : Pre B e' := by
   cases hc with
-  | openPending d hid =>
-    refine ⟨h.ns, h.cl, h.t1, ?_, h.wf.created (e := startF e 0) (Created.openPending d hid), h.acc, h.so⟩
+  | openPending d hid hrd =>
+    refine ⟨h.ns, h.cl, h.t1, ?_, h.wf.map (fun _ hw => hw.created (e := startF e 0) (Created.openPending d hid hrd)) rfl, h.acc, h.so⟩
     intro t ht
     rcases List.mem_append.mp ht with ht | ht
     · exact h.tk t ht
     · simpa using ht
   | openId d sid hid hs hnew =>
-    refine ⟨h.ns, h.cl, h.t1, ?_, h.wf.created (e := startF e 0) (Created.openId d sid hid hs hnew), h.acc, h.so⟩
+    refine ⟨h.ns, h.cl, h.t1, ?_, h.wf.map (fun _ hw => hw.created (e := startF e 0) (Created.openId d sid hid hs hnew)) rfl, h.acc, h.so⟩
     intro t ht
     rcases List.mem_append.mp ht with ht | ht
     · exact h.tk t ht
     · simpa using ht
   | negotiated sid hid hs hnew =>
-    exact ⟨h.ns, h.cl, h.t1, h.tk, h.wf.created (e := startF e 0) (Created.negotiated sid hid hs hnew), h.acc, h.so⟩
+    exact ⟨h.ns, h.cl, h.t1, h.tk, h.wf.map (fun _ hw => hw.created (e := startF e 0) (Created.negotiated sid hid hs hnew)) rfl, h.acc, h.so⟩
 
 /-- A flush task run before `start()` does nothing (the association is not established). -/
-theorem wp_runTask_pre {A} {Q : Unit → St → Prop} {e : Ep} {l : List Out} (h : Pre U e)
-    (hq : ∀ e' l', Pre U e' → Q () (e', l')) : wp A runTask Q (e, l) := by
+theorem wp_runTask_pre {A} {Q : Unit → St → Prop} {e : Ep} {l : List Out} (h : Pre B e)
+    (hq : ∀ e' l', Pre B e' → Q () (e', l')) : wp A runTask Q (e, l) := by
   unfold runTask
   simp only [wp_bind, wp_getE]
   split
@@ -185,19 +193,19 @@ theorem wp_runTask_pre {A} {Q : Unit → St → Prop} {e : Ep} {l : List Out} (h
     split
     · simp only [wp_pure]
       refine hq _ _ ⟨h.ns, h.cl, h.t1, fun x hx => h.tk x (by rw [hte]; simp [hx]), ?_, h.acc, h.so⟩
-      exact (h.wf.popTask (e := startF e 0) (t := .flush) (rest := rest) hte).1
+      exact h.wf.map (fun _ hw => (hw.popTask (e := startF e 0) (t := .flush) (rest := rest) hte).1) rfl
     · rename_i hne
       exact absurd (by simp [h.cl]) hne
 
 /-- `start()`: the client sends its INIT and arms T1; afterwards `WF` holds. -/
-theorem wp_start {A} {rp : Nat} {Q : Unit → St → Prop} {e : Ep} {l : List Out} (h : Pre U e) (hr : rp < 65536)
-    (hq : ∀ e' l', WF U e' → e'.rwnd = e.rwnd → e'.inStreams = e.inStreams → Q () (e', l')) :
+theorem wp_start {A} {rp : Nat} {Q : Unit → St → Prop} {e : Ep} {l : List Out} (h : Pre B e) (hr : rp < 65536)
+    (hq : ∀ e' l', WFx B e' → e'.rwnd = e.rwnd → e'.inStreams = e.inStreams → Q () (e', l')) :
     wp A (handle (.start rp)) Q (e, l) := by
+  obtain ⟨U, hb, hwf⟩ := id h.wf
   have hrw : e.rwnd ≤ 1048576 := by have := h.acc.acc; omega
   have hw0 : WF U (startF e rp) :=
-    ⟨⟨h.wf.net.lp, ⟨rp, rfl, hr⟩, h.wf.net.rtag, h.wf.net.ltag, h.wf.net.inMax, h.wf.net.outCnt⟩, h.wf.ch, h.wf.tx,
-     h.wf.rx, h.wf.rcReq, h.wf.rcResp, h.wf.sack, h.wf.ids, h.wf.cap, h.wf.tm1, h.wf.tm2, h.wf.tasks,
-     h.wf.rcr⟩
+    ⟨⟨hwf.net.lp, ⟨rp, rfl, hr⟩, hwf.net.rtag, hwf.net.ltag, hwf.net.inMax, hwf.net.outCnt⟩, hwf.ch, hwf.tx,
+     hwf.rx, hwf.rcReq, hwf.rcResp, hwf.sack, hwf.ids, hwf.cap, hwf.tm1, hwf.tm2, hwf.tasks, hwf.rcr⟩
   simp only [handle, wp_bind, wp_getE, h.ns, Bool.not_false, if_true, wp_setE]
   split
   · simp only [wp_bind, wp_getE]
@@ -217,8 +225,8 @@ theorem wp_start {A} {rp : Nat} {Q : Unit → St → Prop} {e : Ep} {l : List Ou
     refine wp_t1Start h.t1 ?_
     intro l'
     rw [wp_setState_other (by decide) (by decide)]
-    exact hq _ _ (by wf_same2 (hw0.t1On hin)) rfl rfl
+    exact hq _ _ ⟨U, hb, by wf_same2 (hw0.t1On hin)⟩ rfl rfl
   · simp only [wp_pure]
-    exact hq _ _ hw0 rfl rfl
+    exact hq _ _ ⟨U, hb, hw0⟩ rfl rfl
 
 end Aiortc.Sctp.V2
